@@ -49,6 +49,7 @@ type Obligation struct {
 	Disagree   bool
 	AllSolvers string
 	ExpectSat  bool
+	Before     *Obligation // after-call reachability: the same point before the callee's postcondition was assumed
 	KnownFail  bool // named by a known finding: expected to fail, decided with a short timeout and no retry
 	// replay info
 	Unit *Unit
